@@ -277,6 +277,42 @@ def run(ctx):
             ctx.report({"kind": "digest", "site": "recorded-after-held-back-infos", "variant": variant},
                        f"{variant}: the checksums recorded for {bad[:3]} are not the digests of the files on disk (or examples are missing)", {"variant": variant, "names": names, "files": bad})
         shutil.rmtree(root, ignore_errors=True)
+    # ---- several threads of one process, each filling through its own filler (own sub-directory, infos held back) with shards of a
+    # few hundred KiB closing at overlapping times; one commit at the end: every recorded digest is the digest of the file it names
+    import threading as _th
+    from sedpack.io import Attribute as _Attr
+    names = ["sha256", ALGOS[(ctx.seed + 10) % len(ALGOS)]]
+    root = ctx.scratch / "c16_threaded_fillers"
+    tds = sp.mk(root, fmt="npz", eps=2, hashes=tuple(names), attrs=[_Attr(name="a", dtype="int32", shape=(2,)), _Attr(name="m", dtype="uint8", shape=(300000,))])
+    fillers, terrs = [], []
+    gate = _th.Barrier(4)
+    def tfill(k):
+        try:
+            fl = DatasetFiller(tds, relative_path_from_split=Path(f"t{k}"), auto_update_dataset=False)
+            fillers.append(fl)
+            gate.wait(timeout=30)
+            with fl as f:
+                for v in range(ctx.pick(12, 40)):
+                    f.write_example(values={"a": sp.np.array([1000 * k + v] * 2, dtype=sp.np.int32), "m": sp.np.full((300000,), (7 * k + v) % 251, dtype=sp.np.uint8)}, split="train")
+        except Exception as e:  # noqa: BLE001
+            terrs.append(f"{type(e).__name__}: {str(e)[:120]}")
+    tth = [_th.Thread(target=tfill, args=(k,)) for k in range(4)]
+    for t_ in tth: t_.start()
+    for t_ in tth: t_.join(300)
+    if terrs:
+        ctx.report({"kind": "digest", "site": "threaded-fillers", "what": "error"}, f"four threads with a filler each: {terrs[0]}", {"errors": terrs[:3]})
+    else:
+        tds.write_config(updated_infos=[i for fl in fillers for i in fl.get_updated_infos()])
+        bad = recorded_vs_real(root, names)
+        try:
+            Dataset(root).check(show_progressbar=False); chk = "pass"
+        except Exception as e:  # noqa: BLE001
+            chk = f"{type(e).__name__}: {str(e)[:120]}"
+        if bad or chk != "pass":
+            ctx.report({"kind": "digest", "site": "threaded-fillers"},
+                       f"four threads of one process, each writing through its own filler: {len(bad)} recorded checksums are not the digests of the files they name (e.g. {bad[:2]}); check(): {chk}", {"names": names, "files": bad[:10], "check": chk})
+    ctx.cov["threaded_filler_shards"] = 4 * ctx.pick(12, 40) // 2
+    shutil.rmtree(root, ignore_errors=True)
     # ---- overlapping calls: several threads digest different multi-chunk files at the same time (threads that each fill a
     # dataset, a check running while another thread writes); the digest of a file may not depend on who else is hashing
     import threading
@@ -289,7 +325,7 @@ def run(ctx):
         q = tdir / f"t{k}.bin"
         data = bytes((i * (k + 3) + k) % 256 for i in range(B0 * (5 + k) + 17 * k + 1))
         q.write_bytes(data); tfiles.append((q, data))
-    tnames = tuple(ALGOS[(3 * j + ctx.seed) % len(ALGOS)] for j in range(3))
+    tnames = tuple(ALGOS[(3 * j + ctx.seed) % len(ALGOS)] for j in range(3)) + ("xxh64", "sha1", "xxh128")      # (always one of each library)
     tres, terr = {}, []
     # (earlier calls of this process failed — a missing file, a directory — and the caller caught the error)
     for bad in (tdir / "missing.bin", tdir, tdir / "missing2.bin"):
